@@ -392,6 +392,8 @@ class ByteInterval(Node):
     def symbolic_expressions(
         self, value: typing.Dict[int, SymbolicExpression]
     ) -> None:
+        # (the value may be this very mapping)
+        value = dict(value)
         self._symbolic_expressions.clear()
         self._symbolic_expressions.update(value)
 
